@@ -26,7 +26,9 @@ EXPLANATION = (
     'every subset. R17.4 no verification hooks were added to the repository (guard-off tree = tree). R17.5 the Cargo '
     'feature table declares exactly the six independent features the matrix enumerates. R17.6 cfg universe: every '
     'cfg predicate in src/ is built from those features, `test` and `docsrs` only — behaviour cannot depend on '
-    'debug_assertions, target_*, panic strategy or other cfgs the analysed builds would not exhibit. Not decided: '
+    'debug_assertions, target_*, panic strategy or other cfgs the analysed builds would not exhibit. R17.7 a structural '
+    'necessary condition of "each enabled KEM passes its self-consistency tests": every concatenation buffer holds the '
+    'largest pieces any enabled implementation puts there (type-level capacity arithmetic over all impls). Not decided: '
     'running each subset\'s tests / comparing run-time outputs per subset.')
 TRUSTED = ['rustc/cargo (stable 1.95 for the matrix, nightly 1.97 for fact extraction)']
 ASSUME = ['identical MIR implies identical behaviour given identical dependency versions (Cargo.lock is shared by all subsets)']
@@ -381,5 +383,16 @@ def run(ctx):
         if cfg != 'all':
             nb += check_mir_identity(rep, ref, f, sub)
     check_api(rep, ref, tuple(FEATURES))
+    # R17.7: "each enabled KEM passes the crate's own self-consistency tests" has a structural necessary condition that is
+    # the same for every subset containing the KEM: its encapsulation must not run out of buffer. Every concatenation buffer
+    # in the crate holds the largest pieces any enabled implementation can put there (capacity arithmetic over type-level
+    # sizes; a buffer sized by the digest instead of the public-key bound only breaks the one KEM whose DH output is larger).
+    from . import c13
+    from ..prov import get_an
+    reach = {b.key: get_an(ref, b.key) for b in ref.body_list}
+    D = c13.Discharger(rep, ref, reach, rule='R17.7')
+    nch = D.verify_chains()
+    nk = len([x for x in ('x25519', 'p256', 'p384', 'p521') if x in ref.meta.get('features', [])])
+    rep.floor('R17.7', 'concatenation buffers (all-features build)', nch, max(1, 4 * nk))
     rep.bodies_analysed = nb
     check_no_hooks(rep, repo)
